@@ -1,4 +1,5 @@
 import Cjet.Lemmas.DaemonC03Close
+import Cjet.Lemmas.DaemonC03Refusal
 /-!
 # C03 — routed set/call: delivered once to the owner, answered once to the caller
 
@@ -351,6 +352,48 @@ example : RoutesWf exS1 ∧ findPeer exS1.peers exRoute.owner = some { exP1 with
   rw [← exS1_reachable]
   exact routesWf_run _ _ _ (routesWf_init [])
 
+/-- the same for every way the owner's connection ends (`closePeer`: disconnect, or a message of
+    the owner that gets it dropped — `x` is then the context after that message was processed):
+    outputs are newest first here -/
+theorem final_answer_shutdown_close (x : Ctx) (r : Route) (p : Peer)
+    (hw : WfV (x.st.peers.map pview) x.st.nextTimer) (hp : findPeer x.st.peers r.owner = some p)
+    (hr : r ∈ p.routes) (hne : r.requester ≠ r.owner) :
+    ∃ pre post ok,
+      (closePeer x r.owner).out =
+        post ++ answerSends r.requester (shutdownAnswer r) ok ++ .timerDestroy r.timer :: pre ++ x.out ∧
+      r.timer ∉ (pre ++ post).filterMap destroyedOf :=
+  closePeer_shutdown x r.owner p r hw hp hr hne
+
+/-- when a peer disconnects, its own requests are purged from every table (nobody is told): no
+    stored entry names it as requester afterwards -/
+theorem caller_disconnect_purges (cfg : Config) (s : State) (c : Nat) (orc : Oracle) (hw : RoutesWf s) :
+    ∀ q ∈ (step cfg s (.disconnect c orc)).1.peers, ∀ r ∈ q.routes, r.requester ≠ c := by
+  intro q hq r hr
+  rw [step_disconnect] at hq
+  cases hp : findPeer s.peers c with
+  | none =>
+    simp only [hp, Option.isNone_none, ↓reduceIte] at hq
+    -- `c` is not connected, and requesters of stored entries are
+    intro e
+    have hmem : r ∈ vRoutes (s.peers.map pview) := by
+      rw [vRoutes_map_pview]; exact List.mem_flatMap.mpr ⟨q, hq, hr⟩
+    have hlive := hw.requester r hmem
+    rw [← findPeer_isSome_iff_conns, e, hp] at hlive
+    cases hlive
+  | some p =>
+    simp only [hp, Option.isNone_some, Bool.false_eq_true, ↓reduceIte] at hq
+    have hrs := rs_closePeer (mkCtx s orc) c p hp
+    have hV : (closePeer (mkCtx s orc) c).st.peers.map pview = vClose (s.peers.map pview) c :=
+      congrArg RS.V hrs
+    have hmem : r ∈ vRoutes (vClose (s.peers.map pview) c) := by
+      rw [← hV, vRoutes_map_pview]
+      exact List.mem_flatMap.mpr ⟨q, hq, hr⟩
+    obtain ⟨_, _, _, _, hne⟩ := mem_vRoutes_vClose hmem
+    exact hne
+
+example : RoutesWf exS1 := by
+  rw [← exS1_reachable]; exact routesWf_run _ _ _ (routesWf_init [])
+
 /-- `late_reply_ignored`: a routing response whose id matches no entry of the REPLIER'S OWN table
     — a late reply (after the timeout answer), a duplicated reply, a forged id, the id of an entry
     in another peer's table — changes nothing and emits nothing. -/
@@ -382,5 +425,119 @@ theorem late_expiry_ignored (cfg : Config) (s : State) (orc : Oracle) (t : Nat)
   step_timeout_miss cfg s orc t h
 
 example : ∀ r ∈ exS.peers.flatMap (·.routes), r.timer ≠ 0 := fun _ h => nomatch h
+
+/-! ## 5. Refusal -/
+
+/-- `refusal_only_when_full`: whatever the request and the state, `set_or_call` answers the
+    INTERNAL_ERROR "routing table full" response only when the owner's table refused the insertion
+    (oracle `routeFull`; C17 characterises when the real hopscotch table does). -/
+theorem refusal_only_when_full (cfg : Config) (x : Ctx) (p : Peer) (req : Json) (isState : Bool) (j : Json)
+    (hresp : (setOrCall cfg x p req isState).2 = some j)
+    (hcode : errCode j = some INTERNAL_ERROR)
+    (hreason : errReason j = some (k "reason", k "routing table full")) : x.routeFull = true := by
+  rcases setOrCall_response cfg x p req isState with ⟨tag, reason, h⟩ | ⟨hf, _⟩ | ⟨_, _, h⟩ | ⟨_, _, h⟩
+  · rw [h] at hresp
+    have := (errorFromRequest_shape hresp).1
+    rw [hcode] at this
+    exact absurd (Option.some.inj this) (by unfold INTERNAL_ERROR INVALID_PARAMS; decide)
+  · exact hf
+  · rw [h] at hresp; cases hresp
+  · rw [h] at hresp
+    have := (errorFromRequest_shape hresp).2
+    rw [hreason] at this
+    have h2 := congrArg Prod.snd (Option.some.inj this)
+    exact absurd h2 reason_full_ne_send
+
+/-- with a refusing table a request that passes all checks gets exactly that response: no entry is
+    stored, the timer that had been created is destroyed without having been armed, nothing is sent
+    to the owner -/
+theorem refused_when_full (cfg : Config) (x : Ctx) (p : Peer) (req : Json) (isState : Bool)
+    (params : Json) (path : Bytes) (e : Element) (tns : Nat)
+    (hc : Checks cfg x.st p req isState params path e)
+    (hv : isState = true → (params.getItem (k "value")).isSome = true)
+    (ht : getTimeout cfg (params.getItem (k "timeout")) e.timeoutNs = .ns tns)
+    (hfull : x.routeFull = true) :
+    let y := setOrCall cfg x p req isState
+    y.2 = errorFromRequest req INTERNAL_ERROR "reason" (k "routing table full") ∧
+    y.1.out = .timerDestroy x.st.nextTimer :: x.out ∧ y.1.st.peers = x.st.peers := by
+  intro y
+  have hv' : (isState && (reqValue isState params).isNone) = false := by
+    cases isState with
+    | false => rfl
+    | true =>
+      have := hv rfl
+      simp only [reqValue, ↓reduceIte, Bool.true_and]
+      cases h : params.getItem (k "value") <;> simp_all
+  have hy : y = _ := (setOrCall_of_checks hc).trans (routeCore_full hv' ht hfull)
+  rw [hy]
+  exact ⟨rfl, rfl, rfl⟩
+
+/-- with a table that does not refuse, a well-formed, authorised set/call on an existing element of
+    the right kind is never refused for capacity: it is accepted when the send to the owner
+    succeeds (`routed_delivery`), and otherwise answered "could not send routing information" with
+    the entry removed again and its timer destroyed -/
+theorem accepted_when_not_full (cfg : Config) (x : Ctx) (p : Peer) (req : Json) (isState : Bool)
+    (params : Json) (path : Bytes) (e : Element) (tns : Nat)
+    (hc : Checks cfg x.st p req isState params path e)
+    (hv : isState = true → (params.getItem (k "value")).isSome = true)
+    (ht : getTimeout cfg (params.getItem (k "timeout")) e.timeoutNs = .ns tns)
+    (hfull : x.routeFull = false) :
+    (nextSend x = true → (setOrCall cfg x p req isState).2 = none) ∧
+    (nextSend x = false →
+      (setOrCall cfg x p req isState).2 =
+        errorFromRequest req INTERNAL_ERROR "reason" (k "could not send routing information") ∧
+      tobs (setOrCall cfg x p req isState).1.out =
+        .timerDestroy x.st.nextTimer :: .timerArm x.st.nextTimer tns :: tobs x.out) := by
+  have hv' : (isState && (reqValue isState params).isNone) = false := by
+    cases isState with
+    | false => rfl
+    | true =>
+      have := hv rfl
+      simp only [reqValue, ↓reduceIte, Bool.true_and]
+      cases h : params.getItem (k "value") <;> simp_all
+  constructor
+  · intro hs
+    rw [setOrCall_of_checks hc, routeCore_accept hv' ht hfull hs]
+  · intro hs
+    rw [setOrCall_of_checks hc, routeCore_sendFail hv' ht hfull hs]
+    refine ⟨rfl, ?_⟩
+    simp [stored, newRoute]
+
+/-- the hypotheses of the three theorems above hold for `exSet` at `exS` (with either oracle) -/
+example : Checks exCfg exS exP2 exSet true exParams (k "p") exElem ∧
+    (exParams.getItem (k "value")).isSome = true ∧
+    getTimeout exCfg (exParams.getItem (k "timeout")) exElem.timeoutNs = .ns 5000000000 :=
+  ⟨⟨by with_unfolding_all rfl, by with_unfolding_all rfl, rfl, rfl, by with_unfolding_all rfl,
+    by with_unfolding_all rfl⟩, by with_unfolding_all rfl, by with_unfolding_all rfl⟩
+
+/-- … and the table-full response really is produced there when the table refuses -/
+example : ∃ j, (setOrCall exCfg (mkCtx exS { routeFull := true }) exP2 exSet true).2 = some j ∧
+    errCode j = some INTERNAL_ERROR ∧ errReason j = some (k "reason", k "routing table full") :=
+  ⟨_, by with_unfolding_all rfl, by with_unfolding_all rfl, by with_unfolding_all rfl⟩
+
+/-! ## further non-vacuity examples -/
+
+/-- `routes_wf_step`, `final_answer_timeout`, `resolution_cases` (the expiry of its timer resolves
+    `exRoute`: afterwards it is not stored) -/
+example : RoutesWf exS1 ∧ Stored exS1 exRoute ∧
+    ¬ Stored (step exCfg exS1 (.timerFire exRoute.timer {})).1 exRoute := by
+  have hw : RoutesWf exS1 := by
+    rw [← exS1_reachable]; exact routesWf_run _ _ _ (routesWf_init [])
+  have hin : Stored exS1 exRoute := ⟨_, by with_unfolding_all rfl, .head _⟩
+  refine ⟨hw, hin, ?_⟩
+  rw [(final_answer_timeout exCfg exS1 {} exRoute hw hin).1]
+  exact (final_answer_timeout exCfg exS1 {} exRoute hw hin).2
+
+/-- `routed_delivery` (handler level) at `mkCtx exS {}` -/
+example : EO (mkCtx exS {}).st ∧ Checks exCfg (mkCtx exS {}).st exP2 exSet true exParams (k "p") exElem ∧
+    (mkCtx exS {}).routeFull = false ∧ nextSend (mkCtx exS {}) = true := by
+  refine ⟨?_, ⟨by with_unfolding_all rfl, by with_unfolding_all rfl, rfl, rfl, by with_unfolding_all rfl,
+    by with_unfolding_all rfl⟩, rfl, rfl⟩
+  show EO exS
+  rw [← exS_reachable]; exact elements_owned _ _ _
+
+/-- `duplicate_reply_ignored`: the table of peer 1 after the reply -/
+example : ∃ p', findPeer (removeRoute exS1.peers exRoute.owner exRoute.rid) exRoute.owner = some p' :=
+  ⟨_, by with_unfolding_all rfl⟩
 
 end Cjet.Props.C03
